@@ -4,7 +4,7 @@ use super::{
     models::{FieldAttributeBuilder, TypeAttributeBuilder},
     TraitHandler,
 };
-use crate::{common::r#type::dereference, panic, supported_traits::Trait};
+use crate::{common::r#type::{dereference, dereference_stars}, panic, supported_traits::Trait};
 
 pub(crate) struct DerefEnumHandler;
 
@@ -98,7 +98,10 @@ impl TraitHandler for DerefEnumHandler {
 
             target_token_stream.extend(quote!(#dereference_ty));
 
-            for (variant_ident, is_tuple, index, field_name, _) in variants {
+            for (variant_ident, is_tuple, index, field_name, ty) in variants {
+                // the patterns bind a reference to the field
+                let stars = dereference_stars(ty, 1);
+
                 let mut pattern_token_stream = proc_macro2::TokenStream::new();
 
                 if is_tuple {
@@ -109,7 +112,7 @@ impl TraitHandler for DerefEnumHandler {
                     pattern_token_stream.extend(quote!( #field_name, .. ));
 
                     arms_token_stream.extend(
-                        quote!( Self::#variant_ident ( #pattern_token_stream ) => #field_name, ),
+                        quote!( Self::#variant_ident ( #pattern_token_stream ) => & #stars #field_name, ),
                     );
                 } else {
                     // bind the field to another name, the field may be named like a constant or a variant in scope (e.g. `None`)
@@ -118,7 +121,7 @@ impl TraitHandler for DerefEnumHandler {
                     pattern_token_stream.extend(quote!( #field_name: #field_name_var, .. ));
 
                     arms_token_stream.extend(
-                        quote!( Self::#variant_ident { #pattern_token_stream } => #field_name_var, ),
+                        quote!( Self::#variant_ident { #pattern_token_stream } => & #stars #field_name_var, ),
                     );
                 }
             }
